@@ -51,8 +51,11 @@ class UnitResult:
 
 def run_unit(unit, variant=None, rlimit=None, seed=None, db=None):
     res = UnitResult(unit)
+    base = unit
+    if '@' in unit:
+        base, variant = unit.split('@', 1)
     try:
-        path, info = gen.expand(unit, db=db, variant=variant)
+        path, info = gen.expand(base, db=db, variant=variant)
     except (gen.GenError, gen.ScanError) as e:
         res.undecided.append('generator: %s' % e)
         return res
@@ -108,6 +111,18 @@ def _label_of(info, line_start, line_end):
     return None
 
 
+def _call_site(sp):
+    """A span inside a macro definition (our shadowed vec!/format!) is replaced by its invocation site."""
+    seen = 0
+    while sp.get('expansion') and sp['expansion'].get('span') and seen < 5:
+        outer = dict(sp['expansion']['span'])
+        outer['is_primary'] = sp.get('is_primary')
+        outer['label'] = sp.get('label')
+        sp = outer
+        seen += 1
+    return sp
+
+
 def classify(res, stderr):
     info = res.info
     for line in stderr.splitlines():
@@ -143,7 +158,7 @@ def classify(res, stderr):
         if kind is None:
             res.undecided.append('unrecognised diagnostic: %s' % msg)
             continue
-        spans = d.get('spans', [])
+        spans = [_call_site(sp) for sp in d.get('spans', [])]
         prim = [s for s in spans if s.get('is_primary')] or spans
         sec = [s for s in spans if not s.get('is_primary')]
         p0 = prim[0]
